@@ -1,6 +1,6 @@
-CONSTANTS NK = 4  NM = 2  MaxPasses = 2
-          Shapes <- ShapesQ  Coins <- CoinsQ  HashTypes <- HTq  Passes <- WidePasses
+CONSTANTS NK = 3  NM = 2  MaxPasses = 2
+          Shapes <- ShapesW  Coins <- CoinsQ  HashTypes <- HTq  Passes <- WidePasses
 SPECIFICATION Spec
-INVARIANTS TypeOK ValidIff SignedSane NeverValidWithFewKeys Confluence ValidDependsOnUnionOnly OutcomesCharacterized
+INVARIANTS TypeOK ValidIff SignedSane NeverValidWithFewKeys Confluence ValidDependsOnUnionOnly
 PROPERTIES Monotone ValidUntouched FrameKept UnaskedUntouched
 CHECK_DEADLOCK FALSE
